@@ -35,6 +35,12 @@ def main(argv=None):
     for f in glob.glob(os.path.join(os.environ.get('VF_REPLAY_DIR') or os.path.join(VERIF, 'replays'), '%s_*.json' % prop)):
         os.unlink(f)                      # replay files of earlier runs of this property
     known = verify.load_known(prop)
+    # watchdog: a check never hangs (a changed tree can make the real code loop); running out of time is a machinery error (exit 3), never a verdict
+    import signal
+    limit = int(os.environ.get('VF_MAX_SECONDS') or (1500 if a.tier == 'quick' else 4 * 3600))
+    class _OutOfTime(KeyboardInterrupt): pass          # (KeyboardInterrupt: the exploration engine and the code under test let it through instead of recording it as an outcome)
+    def _alarm(signum, frame): raise _OutOfTime('the check ran longer than %d s (VF_MAX_SECONDS)' % limit)
+    signal.signal(signal.SIGALRM, _alarm); signal.setitimer(signal.ITIMER_REAL, limit, 5)          # fires again every 5 s should a bare except swallow it
     try:
         mod = importlib.import_module(modname)
         contracts = mod.CONTRACTS
@@ -50,6 +56,7 @@ def main(argv=None):
             mod.finish(rep, a.tier)
     except BaseException:
         rep.errors.append('check crashed\n' + traceback.format_exc())
+    signal.setitimer(signal.ITIMER_REAL, 0)
     return conclude(rep, known, seed, t0, getattr(sys.modules.get(modname), 'META', {}), a.verbose)
 
 
